@@ -350,9 +350,39 @@ def check_wiring(report, facts, rule, compressed, doc_text):
                                     file='docs/instruction_reference.rst'), instance=m)
 
 
+def rebuild_sites(facts):
+    """Calls that rebuild an item from its attribute dict: ('positional', node) for `<class of item>(*d.values())`,
+    ('keyword', node) for `<class of item>(**d)`, where <class of item> is `x.__class__` or `type(x)`."""
+    out = []
+    for fn in facts.funcs.values():
+        for n in ast.walk(fn):
+            if not isinstance(n, ast.Call):
+                continue
+            f = n.func
+            dyn = (isinstance(f, ast.Attribute) and f.attr == '__class__') or \
+                  (isinstance(f, ast.Call) and isinstance(f.func, ast.Name) and f.func.id == 'type' and len(f.args) == 1)
+            if not dyn:
+                continue
+            if any(isinstance(a, ast.Starred) and isinstance(a.value, ast.Call) and isinstance(a.value.func, ast.Attribute)
+                   and a.value.func.attr == 'values' for a in n.args):
+                out.append(('positional', n))
+            elif any(k.arg is None for k in n.keywords) and not n.args:
+                out.append(('keyword', n))
+            elif any(isinstance(a, ast.Starred) for a in n.args):
+                out.append(('positional', n))
+    return out
+
+
 def check_rebuild_invariant(report, facts, rule):
-    """attribute assignment order in __init__ == constructor parameter order, each `self.x = x` (positional rebuild
-    `item.__class__(*vars(item).values())` relies on it)."""
+    """Items are rebuilt from their attribute dict (`item.__class__(*vars(item).values())`): for a positional rebuild the attribute
+    assignment order of __init__ must equal the constructor parameter order, each `self.x = x`; for a keyword rebuild
+    (`item.__class__(**vars(item))`) every attribute must be stored under the name of the parameter it comes from (order free);
+    without any rebuild site the order carries no meaning."""
+    sites = rebuild_sites(facts)
+    report.count('item rebuild sites', len(sites))
+    positional = any(k == 'positional' for k, _ in sites)
+    if not sites:
+        report.note('no `item.__class__(*fields.values())` / `(**fields)` rebuild found: attribute order of the item classes is not load-bearing')
     n = 0
     for cname in facts.subclasses('Item'):
         ci = facts.classes[cname]
@@ -378,7 +408,11 @@ def check_rebuild_invariant(report, facts, rule):
             continue
         got = [(a, s) for a, s in order]
         want = [(p, p) for p in params]
-        if got == want:
+        if not sites:
+            report.ok(rule, '{}: never rebuilt from its attribute dict'.format(cname), nontrivial=False)
+        elif not positional and sorted(got) == sorted(want):
+            report.ok(rule, '{}: attributes {} stored under their parameter names (keyword rebuild)'.format(cname, sorted(a for a, _ in got)))
+        elif got == want:
             report.ok(rule, '{}: attribute order {} == parameter order'.format(cname, [a for a, _ in got]))
         else:
             report.fail(Finding(rule, cname + '.__init__', 'attribute order',
